@@ -170,8 +170,12 @@ def classify(orig, out, config, what, detail=None):
     if what == 'order' and isinstance(detail, dict) and any(
             isinstance(n, ast.If) and isinstance(n.test, ast.BoolOp) for n in ast.walk(orig)):
         o, t_ = detail['original'], detail['transformed']
-        nb = lambda ev: [e for e in ev if not e.startswith('bool(')]   # noqa
-        if o['outcome'] == t_['outcome'] and nb(o['events']) == nb(t_['events']) and len(t_['events']) > len(o['events']):
+        eo, et = o['events'], t_['events']
+        i = 0
+        while i < len(eo) and i < len(et) and eo[i] == et[i]:
+            i += 1
+        # first divergence = the transformed code repeats the truth test it has just made
+        if 0 < i < len(et) and et[i].startswith('bool(') and et[i] == et[i - 1]:
             return 'anf-boolop-test-double-truth'
     t = anf.AnfTransformer(_ctx(), config)
     m = G.Mirror(t._should_transform, anf._is_trivial)
